@@ -73,6 +73,63 @@ func init() {
 				}
 				cases = append(cases, Case{"syltext": sb.String(), "key": fam.keys[rng.Intn(len(fam.keys))]})
 			}
+			// key histories, systematically: every sequence of up to H key announcements over a pool of three keys (the first is
+			// also the --key of half the runs), each carried by a chord or by a rest and followed by two plain chords on notes of
+			// the announced key (the fifth and the tonic): leaving a key, coming back, alternating, restating
+			hmax := 4
+			if !c.quick() {
+				hmax = 5
+			}
+			pools := [][]string{{"G", "Eb", "C"}, {"F#m", "A", "Bbm"}}
+			if !c.quick() {
+				pools = append(pools, []string{supportedKeys[rng.Intn(28)], supportedKeys[rng.Intn(28)], supportedKeys[rng.Intn(28)]})
+			}
+			for pi, pool := range pools {
+				var hist func(h []int)
+				hist = func(h []int) {
+					if len(h) > 0 {
+						var sb strings.Builder
+						t0, _ := parseKeyName(pool[0])
+						sb.WriteString(t0.String() + "[1] ")
+						for j, ki := range h {
+							tn, minor := parseKeyName(pool[ki])
+							fifth, _ := spellAbove(tn, 5, 0)
+							q := ""
+							if minor {
+								q = "m"
+							}
+							if (j+len(h)+pi)%3 == 0 {
+								sb.WriteString("R[1]{key=" + pool[ki] + "} ")
+							} else {
+								sb.WriteString(tn.String() + q + "[1]{key=" + pool[ki] + "} ")
+							}
+							sb.WriteString(fifth.String() + "[1] " + tn.String() + q + "[1] ")
+						}
+						flag := ""
+						if (len(h)+h[0])%2 == 0 {
+							flag = pool[0]
+						} else {
+							sb.Reset() // without --key the piece starts in C
+							sb.WriteString("C[1] ")
+							for _, ki := range h {
+								tn, minor := parseKeyName(pool[ki])
+								third, ok := spellAbove(tn, 3, map[bool]int{true: -1, false: 0}[minor])
+								if !ok {
+									third = tn
+								}
+								sb.WriteString(tn.String() + "[1]{key=" + pool[ki] + "} " + third.String() + "[1] ")
+							}
+						}
+						cases = append(cases, Case{"syltext": sb.String(), "key": flag})
+					}
+					if len(h) < hmax {
+						for k := 0; k < 3; k++ {
+							hist(append(append([]int{}, h...), k))
+						}
+					}
+				}
+				hist(nil)
+			}
 			return cases
 		},
 		Exec: func(c *Ctx, k Case) []Rec {
